@@ -206,6 +206,12 @@ tagspec(struct scope *s)
 				error(&tok.loc, "enum '%s' is used before it is defined and has no fixed underlying type", tag);
 			t = mktype(kind, PROPSCALAR|PROPARITH|PROPREAL|PROPINT);
 			t->base = et;
+			if (et) {
+				/* known from the underlying type even before the enumerators are */
+				t->size = et->size;
+				t->align = et->align;
+				t->u.basic.issigned = et->u.basic.issigned;
+			}
 		} else {
 			t = mktype(kind, 0);
 			t->size = 0;
